@@ -120,8 +120,8 @@ def check_document(final, exp, model_text, wrap, class_hash):
     rest = R.DJC_ID_RE.sub("", R.DATA_O_RE.sub("", p["rest"]))
     if rest != model_text:
         return ("OUTPUT", f"document text differs from the model: {rest[:300]!r} vs {model_text[:300]!r}")
-    js_delivered = wrap in (1, 2, 3, 4)
-    css_delivered = wrap in (1, 2, 3)
+    js_delivered = wrap in (1, 2, 3, 4, 5)
+    css_delivered = wrap in (1, 2, 3, 5)
     want_js = [c for _, c in exp["js"]] if js_delivered else []
     want_css = [c for _, c in exp["css"]] if css_delivered else []
     if p["inline_js"] != want_js:
